@@ -484,11 +484,71 @@ pub fn run(tier: &str) -> i32 {
             });
         }
     });
+    // repeated watch of one key by one client: how many copies it gets while subscribed is not specified (1..n are
+    // accepted), but one unwatch / unwatch-all ends the subscription: nothing may arrive for writes that start later,
+    // and a bystander's subscription is untouched throughout
+    let mut rewatch_cases = 0u64;
+    {
+        let (node, _adm) = mem_node(&[("rw", "none")]);
+        let dbs = node.dbs.clone();
+        let mut case = 0u64;
+        for n_watch in [2usize, 3] {
+            for end in ["unwatch k", "unwatch-all"] {
+                for write in ["set k v{}", "set-safe k 90{} s{}", "increment k 1", "remove k"] {
+                    for bystander_first in [false, true] {
+                        case += 1;
+                        rewatch_cases += 1;
+                        let key = format!("rk{}", case);
+                        let mut w = Session::new();
+                        let mut c = Session::new();
+                        let mut b = Session::new();
+                        for s in [&mut w, &mut c, &mut b] {
+                            s.call(&dbs, "use-db rw tok");
+                        }
+                        w.call(&dbs, &format!("set {} 1", key));
+                        if bystander_first {
+                            b.call(&dbs, &format!("watch {}", key));
+                        }
+                        for _ in 0..n_watch {
+                            c.call(&dbs, &format!("watch {}", key));
+                        }
+                        if !bystander_first {
+                            b.call(&dbs, &format!("watch {}", key));
+                        }
+                        let line = |i: u64| write.replace(" k", &format!(" {}", key)).replacen("{}", &i.to_string(), 1).replacen("{}", &i.to_string(), 1);
+                        let first_ok = !w.call(&dbs, &line(1)).is_error();
+                        let while_subscribed = c.drain().iter().filter(|l| l.starts_with("changed ") || l.starts_with("removed ")).count();
+                        let bystander_1 = b.drain().iter().filter(|l| l.starts_with("changed ") || l.starts_with("removed ")).count();
+                        c.call(&dbs, &end.replace(" k", &format!(" {}", key)));
+                        c.drain();
+                        // (a refused write — stale version, non-numeric value — notifies nobody)
+                        let later_ok = [w.call(&dbs, &format!("set {} {}", key, 500 + case)), w.call(&dbs, &line(2))].iter().filter(|r| !r.is_error()).count();
+                        let after: Vec<String> = c.drain();
+                        let bystander_2 = b.drain().iter().filter(|l| l.starts_with("changed ") || l.starts_with("removed ")).count();
+                        let kind = write.split(' ').next().unwrap();
+                        if (first_ok && while_subscribed == 0) || while_subscribed > n_watch || (!first_ok && while_subscribed != 0) {
+                            v.report(json!({"check": "watch", "problem": if while_subscribed == 0 { "committed-change-not-notified" } else { "more-notifications-than-subscriptions" }, "context": "client-watched-the-key-more-than-once", "op": kind}), json!({"watches": n_watch, "write": line(1), "notifications": while_subscribed}));
+                        }
+                        if !after.is_empty() {
+                            v.report(json!({"check": "watch", "problem": "notified-after-unsubscribing", "context": "client-watched-the-key-more-than-once", "ended_by": end.split(' ').next().unwrap()}), json!({"watches": n_watch, "ended_by": end, "later_writes": [format!("set {} {}", key, 500 + case), line(2)], "received": after}));
+                        }
+                        if bystander_1 != first_ok as usize || bystander_2 != later_ok {
+                            v.report(json!({"check": "watch", "problem": "bystander-subscription-disturbed", "context": "another-client-watched-the-key-more-than-once"}), json!({"watches": n_watch, "bystander_got": [bystander_1, bystander_2], "expected": [first_ok as usize, later_ok], "ended_by": end, "write": write}));
+                        }
+                        for s in [w, c, b] {
+                            s.disconnect(&dbs);
+                        }
+                    }
+                }
+            }
+        }
+    }
     let st = stats.into_inner().unwrap();
     ev.evaluations = st.runs;
     ev.distinct_nontrivial = st.nontrivial.len() as u64;
     ev.rule = format!("{} generated client mixes (3-4 clients x 2-4 ops; writers: set / set-safe accepted+refused / increment / remove, admin link: replicate / replicate-remove / replicate-increment; others: watch / unwatch / unwatch-all / disconnect on keys a,b,n) x {} seeded token-passing schedules (random + PCT), followed by a sequential probe write per key; distinct = hash of the (thread,site,call,return) sequence; non-trivial = distinct schedules in which a mutation of a key overlaps the start or the end of some client's subscription to that key", cases, per_case);
     ev.samples = st.samples.clone();
+    ev.set("repeated_watch_cases", json!(rewatch_cases));
     ev.set("distinct_schedules", json!(st.distinct.len()));
     ev.set("mutations_observed", json!(st.mutations));
     ev.set("notifications_observed", json!(st.notifications));
@@ -499,7 +559,7 @@ pub fn run(tier: &str) -> i32 {
     ev.set("known_findings_seen", json!(v.known_seen()));
     ev.violations = v.violation_count();
     ev.assumptions = vec![
-        "a client never watches a key it already watches (duplicate subscriptions are unspecified)".into(),
+        "in the interleaved part a client never watches a key it already watches; the repeated-watch part accepts 1..n copies per mutation for a client that watched n times (unspecified) and judges only the end of the subscription and the bystander".into(),
         "a mutation overlapping the first or last instant of a subscription may or may not be notified; only mutations entirely inside must be, only mutations overlapping may be".into(),
         "inboxes are drained after every operation, far below the documented 100-message back-pressure limit".into(),
         "disconnect = unwatch-all + Client::left, the sequence all three transports execute".into(),
